@@ -140,3 +140,16 @@ CHECKS["C19"] = {
     "text": "quick: 1,001 kernels / 1,411 (kernel, active set) elements, 175k E1 runs; thorough: 3,889 kernels / 5,829 elements plus the gfortran-compiled harness for the quick elements. Kernels are product families of assignments A = sum c_k*B_k (increments, scalings, zeroing; literal/passive/array coefficients; division by passive), loops with steps +-1, 2, -3 and expression bounds, nesting, and IF blocks on passive data.",
     "note": "Exact rational arithmetic: no tolerance. Kernels PSyAD documents as unsupported (issue #1458) are skipped; refusals are allowed. Open finding: a zero-trip loop with |step|>1 executes one iteration in the adjoint (MOD vs MODULO; three text-comparison tests pin MOD). Fixed: sign of a subtracted increment term; unbracketed lower bound in the reversed-loop offset.",
 }
+
+CHECKS["C01"] = {
+    "level": "translation_validation",
+    "technique": "exhaustive bounded corpus of generated Fortran programs; real FortranReader + FortranWriter; original and re-written text both compiled by gfortran (-std=f2008 -fimplicit-none -fcheck=bounds) and executed on every enumerated input; printed values compared",
+    "text": "269 statement templates (DO incl. zero-trip/negative/strided/named/EXIT/CYCLE, IF, SELECT CASE over integer/logical/character selectors with ranges/lists/DEFAULT positions, WHERE/ELSEWHERE incl. masks with other lower bounds and reductions, array sections, named/optional arguments, canonicalised intrinsics, CodeBlocks) x 3 declaration hosts, alone, nested and in sequences of <=2 (quick: 893 programs, 9.4k (program,input) comparisons) / <=3 (thorough: 5,408 programs, 105k comparisons). Reading+writing must not raise an internal error, the written text must compile, and its output must equal the original's on every input.",
+    "note": "gfortran 12 is the reference semantics (no E1 involved). Originals that do not compile or are undefined are generator errors (harness error). 10 open findings (7 in the WHERE lowering, SELECT selector re-evaluation, CodeBlock/SELECT DEFAULT reordering, DO CONCURRENT index), patches prepared for 6 of them under fixes/.",
+}
+CHECKS["C03"] = {
+    "level": "model_checking",
+    "technique": "exhaustive bounded corpus (C01 statement templates + declaration-feature sets) pushed through three real read+write passes; byte comparison of successive outputs and multiset comparison of CodeBlock/verbatim lines",
+    "text": "quick: 3,441 programs / 10k passes; thorough: 19.7k programs / 58.6k passes. t1 = W(R(src)), t2 = W(R(t1)), t3 = W(R(t2)) must satisfy t1 == t2 == t3 byte for byte, and no CodeBlock banner or verbatim line may be lost or duplicated.",
+    "note": "This version's FortranReader cannot keep source comments/directives, so the comment/directive clause is checked on what the writer emits itself. Programs the reader rejects cleanly are counted, not failed. 2 open findings (leaked WHERE loop variable declaration grows each pass; COMMON statement changes position).",
+}
